@@ -108,6 +108,7 @@ func (r *CaseResult) absorb(res *simrt.Result) {
 	r.count("sched.decisions", res.Steps)
 	r.count("sched.contended", res.Contended)
 	r.count("sched.deviation", res.Deviations)
+	r.count("sched.stall", res.Stalls)
 	r.count("sched.point_preempt", res.PointPreempts)
 	r.count("sched.select_reorder", res.SelectReorders)
 	r.count("sched.clock_advance", res.ClockAdvances)
@@ -226,6 +227,9 @@ func GenSim(r *rand.Rand) simrt.Config {
 		c.PointGap = pick(r, []int64{0, 0, 20, 200, 2000})
 		c.SelectRandom = r.IntN(3) > 0
 		c.ClockProb = pick(r, []float64{0, 0, 0.02, 0.2})
+	}
+	if c.PointGap > 0 && r.IntN(4) == 0 {
+		c.StallSteps = pick(r, []int64{5, 10, 30, 100})
 	}
 	c.MapOrder = pick(r, []string{"identity", "reverse", "shuffle", "shuffle"})
 	c.MapSeed = r.Uint64()
